@@ -98,6 +98,7 @@ func parseTilePath(p string) (h, l int, n int64, w int, ok bool) {
 type tileStub struct {
 	growOnHead, growCap uint64 // the tree grows by growOnHead leaves on every request for the head, up to growCap
 	xsigs               int    // extra signature lines by unknown keys on the published checkpoint
+	tilesAhead          uint64 // if larger than size: tiles are served for a tree of this size (the log's storage runs ahead of its published head)
 	mu                  sync.Mutex
 	tree                *RefTree
 	size                uint64
@@ -143,7 +144,7 @@ func (s *tileStub) tile(h, l int, n int64, w int) ([]byte, bool) {
 	}
 	span := uint64(1) << uint(h*l) // leaves under one hash of this tile
 	first := uint64(n) * uint64(1<<uint(h))
-	if (first+uint64(w))*span > s.size || h*l > 62 {
+	if (first+uint64(w))*span > max(s.size, s.tilesAhead) || h*l > 62 {
 		return nil, false
 	}
 	out := make([]byte, 0, 32*w)
@@ -442,6 +443,22 @@ func c18Grow(t *testing.T, p *Plan, sizes []uint64) (viol []Violation, infra str
 		go func() { done <- sumdb.FeedLog(ctx, cl, rw, hc, interval) }()
 		checked := 0
 		moving := p.Cfg.Extra["moving_head"] != 0
+		if p.Cfg.Extra["tiles_ahead"] != 0 {
+			// the log's tile storage runs ahead of the head it publishes (entries are integrated before the checkpoint is signed);
+			// and once, a request for a partial tile is answered 503
+			stub.tilesAhead = sizes[len(sizes)-1]
+			failed := false
+			sn.FaultFn = func(class string, occ int) string {
+				stub.mu.Lock()
+				defer stub.mu.Unlock()
+				if !failed && strings.Contains(class, ".p/") && stub.size >= uint64(p.Cfg.Extra["pfault_from"]) {
+					failed = true
+					st.Fired["partial_tile_503_once"]++
+					return "status:503"
+				}
+				return ""
+			}
+		}
 		for _, size := range sizes {
 			stub.mu.Lock()
 			if moving && stub.size > size {
@@ -656,6 +673,9 @@ func init() {
 				p.Cfg.Notes["sizes"] = strings.Join(ss, ",")
 				if r.Chance(0.4) {
 					p.Cfg.Extra["moving_head"] = int64(r.Range(1, 3)) // a busy log: its head has moved on every time it is looked at
+				} else if r.Chance(0.4) {
+					p.Cfg.Extra["tiles_ahead"] = 1
+					p.Cfg.Extra["pfault_from"] = int64(cur) * int64(r.IntN(2)) // from the start, or only at the last step
 				}
 				return p
 			}
